@@ -15,3 +15,22 @@ func VerifMessage2Chunks(message []byte, header *base.RtmpHeader, prevHeader *ba
 func VerifStreamMsg(stream *Stream) base.RtmpMsg {
 	return stream.toAvMsg()
 }
+
+// VerifSetIdentity gives a directly constructed ServerSession the identity that the connect /
+// publish / play commands would give it, so that it can be handed to the observer callbacks.
+func (s *ServerSession) VerifSetIdentity(appName string, streamName string, rawQuery string, isPub bool) {
+	s.appName = appName
+	s.streamName = streamName
+	s.rawQuery = rawQuery
+	s.tcUrl = "rtmp://127.0.0.1/" + appName
+	s.streamNameWithRawQuery = streamName
+	if rawQuery != "" {
+		s.streamNameWithRawQuery += "?" + rawQuery
+	}
+	s.url = s.tcUrl + "/" + s.streamNameWithRawQuery
+	if isPub {
+		s.sessionStat.SetBaseType(base.SessionBaseTypePubStr)
+	} else {
+		s.sessionStat.SetBaseType(base.SessionBaseTypeSubStr)
+	}
+}
